@@ -172,13 +172,22 @@ class CHECK(Check):
     pid = "C15"
     technique = ("Lean 4 theorems over the CorrRemover model (normal equations => zero covariance, least-squares "
                  "minimality, alpha blend, affine map, column order) + compiled-driver correspondence with "
-                 "CorrelationRemover.fit_transform/transform on exact dyadic matrices")
+                 "CorrelationRemover.fit_transform/transform on exact dyadic matrices; translator tie: fit / transform / _split_X / "
+                 "_create_lookup are inlined symbolically and LIFTED (harness/lifters/corr_remover.py -> Generated/CorrRemoverSrc.lean), "
+                 "the model is re-built from the lifted text (Model/CorrLifted.lean) and the theorems are re-proved for it")
     level_text = ("Theorems (all matrices, any number of rows/sensitive/kept columns, any beta solving the normal equations): "
                   "covariance numerator of every output column with every sensitive column = normal-equation residual = 0; "
                   "beta minimises the squared error; output = alpha*residual + (1-alpha)*original, covariance scales by (1-alpha); "
                   "transform is a row-wise affine map with the stored means/coefficients; kept columns = complement of the ids in "
                   "increasing order. Tie: fitted sensitive_mean_/beta_ and the outputs of fit_transform/transform (training and new "
-                  "data) vs the compiled Lean model; exact Fraction oracle (Gram-Schmidt projection, covariance) decides violations.")
+                  "data) vs the compiled Lean model; exact Fraction oracle (Gram-Schmidt projection, covariance) decides violations. "
+                  "LIFTED text (per-column mean, `S - mean` operand order, lstsq operands, transform re-using the STORED mean and "
+                  "beta_, entry-wise output alpha*(use - proj) + (1-alpha)*use, the two index comprehensions of _split_X, the by-name "
+                  "and by-position lookup tables): `src_model_eq` proves the re-built model equal to the hand-written one and "
+                  "`src_uncorrelated / src_alpha_blend / src_transform_new_data / src_drops_sensitive_keeps_order / "
+                  "src_ids_by_position_or_name` restate the clauses for it. Rank deficiency (F10): `residual_unique` and "
+                  "`output_independent_of_solution` (every solution of the normal equations gives the same output), "
+                  "`normal_equations_unique_iff` (beta_ unique <=> Gram matrix nonsingular <=> centred columns independent).")
     design_ref = "DESIGN.md section 4, C15"
     quick_cases = 3000
     thorough_cases = 30000
@@ -192,11 +201,17 @@ class CHECK(Check):
             "non-trivial = at least one non-constant sensitive column")
     explanation = ("theorems over the Lean model CorrRemover for all inputs; numpy.linalg.lstsq enters only through the normal "
                    "equations (checked on every case with the fitted beta_); correspondence: sensitive_mean_, fit_transform, "
-                   "transform(train), transform(new) vs compiled driver within 1e-9*scale; oracle: exact Gram-Schmidt residual and "
-                   "sample covariance in Fractions")
+                   "transform(train), transform(new) vs compiled driver within 1e-9*scale, both for the hand-written model (`corr.*`) "
+                   "and for the model re-built from the lifted source (`corrsrc.*`, incl. the lookup of ids by name / position); two "
+                   "different exact solutions of rank-deficient problems are pushed through the model (same output); oracle: exact "
+                   "Gram-Schmidt residual and sample covariance in Fractions. Lifted-model-vs-oracle disagreements are HARNESS-ERRORs "
+                   "only while Generated/CorrRemoverSrc.lean has the pinned content, else broken tie `C15.src_model_eq`.")
     trusted = ("numpy.linalg.lstsq is modelled by its defining property (normal equations Scᵀ(Z − Sc·beta) = 0), whose residual "
                "is evaluated exactly by the driver for every fitted beta_",
-               "sklearn validate_data / DataFrame -> ndarray conversion (checked only through the correspondence)")
+               "sklearn validate_data / DataFrame -> ndarray conversion (checked only through the correspondence)",
+               "harness/lifters/corr_remover.py: symbolic inlining of fit / transform, entry-wise reading of numpy broadcasting "
+               "(`S - mean` row-wise, `.dot(beta_)` as the row-by-matrix product, np.atleast_2d as identity on 2-d blocks), list / dict "
+               "comprehensions of _split_X / _create_lookup; every other shape is refused")
     assumptions = ("n >= 2 rows, at least one sensitive and one other column, all values finite",
                    "float rounding of lstsq on rank-deficient blocks stays below 1e-9*scale")
 
